@@ -775,14 +775,33 @@ def U4_frontier_init_and_progress(ctx):
                 fr = fl.get('frontier')
                 if fr is not None and fr[0] == 'call' and fr[2] == (('const', '0_usize'),):
                     ok0 = True
+    set_flag = False
     for c in ctx.facts.closures_under(f.name):
         for p in feasible(ctx.fn(c).paths()):
             r = [e for e in p.events if e.kind == 'ret'][0].d['value']
             if r[0] == 'call' and 'Atomic' in r[1] and r[2] == (('const', 'false'),):
                 okf = True
             elif r[0] == 'call' and 'Atomic' in r[1] and r[2] == (('const', 'true'),):
-                okf = False
-                break
+                set_flag = True
+            elif r[0] == 'call' and r[1].endswith('::default'):
+                okf = True
+    # `Default::default` handed over as the element constructor (false for AtomicBool)
+    for b_ in [f.b] + ctx.facts.code_under(f.name):
+        for bl in b_['blocks']:
+            t_ = bl['term']
+            if t_['k'] == 'call' and any(a.get('k') == 'const' and str(a.get('fndef', '')).endswith(('Default>::default', 'Default::default')) for a in t_['args']):
+                okf = True
+    if set_flag:
+        okf = False
+    # the frontier may also be a named constant / default (0)
+    if not ok0:
+        for p in feasible(f.paths()):
+            ret = [e for e in p.events if e.kind == 'ret'][0].d['value']
+            for s_ in subterms(ret):
+                if s_[0] == 'agg' and s_[1].endswith('ExecutionFrontier') and s_[4]:
+                    fr = dict(zip(s_[4].split(','), s_[3])).get('frontier')
+                    if fr is not None and fr[0] == 'call' and (fr[1].endswith('::default') or fr[2] == (('const', '0_usize'),)):
+                        ok0 = True
     ctx.ob('U4', f, 'frontier-starts-at-zero-over-unset-flags', ok0 and okf, f'frontier=0:{ok0} flags=false:{okf}', site=f.loc(f.b['lo']),
            what='a flag that starts set, or a frontier that starts above 0, lets validation claims pass a transaction that never executed')
     g = ctx.method('ExecutionFrontier', 'advance')
